@@ -3,9 +3,9 @@
 builds, the 90 baseline tests pass with the change, the demonstration fails with it and passes without it."""
 import json, os, re, subprocess, sys, shutil
 grp = sys.argv[1]
-stage = '/root/seeded-staging/' + grp
-wt = '/tmp/wt-' + grp
-out_root = '/root/seeded-verified/' + grp
+stage = os.environ.get('STAGE','/root/seeded-staging') + '/' + grp
+wt = os.environ.get('WTPREFIX', '/tmp/wt-') + grp
+out_root = os.environ.get('VERIFIED','/root/seeded-verified') + '/' + grp
 os.makedirs(out_root, exist_ok=True)
 def sh(cmd, cwd=wt, timeout=1800):
     try:
